@@ -2,7 +2,7 @@
 # Re-run every seeded change against the current checks (3 at a time). usage: tools/seed_regress.sh [pattern]
 cd "$(dirname "$(readlink -f "$0")")/.." || exit 1
 pat=${1:-.}
-ls seeded | grep -E "$pat" | xargs -P 3 -I{} bash -c '
+ls seeded | grep -E "$pat" | xargs -P ${SEED_PAR:-3} -I{} bash -c '
   d={}; extra=""
   case $d in C19w3_2) extra="--checks C19,C09";; C15w3_1) extra="--checks C15,C08";; esac
   src=/tmp/seed_regress_src/$d; mkdir -p $src; cp seeded/$d/patch.diff seeded/$d/demo.py $src/ 2>/dev/null; cp seeded/$d/notes.md $src/ 2>/dev/null
